@@ -21,6 +21,8 @@ type ReadOnlyFS struct {
 	sourceFS  hackpadfs.FS
 	cacheFS   writableFS
 	cacheInfo sync.Map
+	// incomplete holds the names of files in cacheFS that are left over from a failed copy and could not be removed.
+	incomplete sync.Map
 
 	pathlock pathlock.Mutex
 	options  ReadOnlyOptions
@@ -56,7 +58,7 @@ func (fs *ReadOnlyFS) Open(name string) (hackpadfs.File, error) {
 
 	fs.pathlock.Lock(name)
 	defer fs.pathlock.Unlock(name)
-	{
+	if _, isIncomplete := fs.incomplete.Load(name); !isIncomplete {
 		// if file is in cache, return it. continue otherwise
 		f, err := fs.cacheFS.Open(name)
 		if err == nil {
@@ -78,8 +80,14 @@ func (fs *ReadOnlyFS) Open(name string) (hackpadfs.File, error) {
 	err = fs.copyFile(name, f, info)
 	if err != nil {
 		_ = f.Close()
+		// don't leave the partial copy behind, the next Open would serve it as the complete file
+		removeErr := hackpadfs.Remove(fs.cacheFS, name)
+		if removeErr != nil && !errors.Is(removeErr, hackpadfs.ErrNotExist) {
+			fs.incomplete.Store(name, true) // copy it again next time
+		}
 		return nil, err
 	}
+	fs.incomplete.Delete(name)
 	if _, seekErr := hackpadfs.SeekFile(f, 0, io.SeekStart); seekErr != nil {
 		// attempt to seek to first byte. if unsuccessful, re-open file from the cache
 		_ = f.Close()
@@ -97,14 +105,17 @@ func (fs *ReadOnlyFS) copyFile(name string, f hackpadfs.File, info hackpadfs.Fil
 	if err != nil {
 		return err
 	}
-	defer func() { _ = destFile.Close() }()
-
 	destFileWriter, ok := destFile.(io.Writer)
 	if !ok {
+		_ = destFile.Close()
 		return &hackpadfs.PathError{Op: "open", Path: name, Err: hackpadfs.ErrPermission}
 	}
 	buf := make([]byte, 512)
 	_, err = io.CopyBuffer(destFileWriter, f, buf)
+	closeErr := destFile.Close()
+	if err == nil {
+		err = closeErr // the copy is only complete once it's closed without error
+	}
 	return err
 }
 
